@@ -426,14 +426,22 @@ class Report:
         with open(path, "w") as f:
             json.dump(detail, f, indent=1, default=str)
         self.violations.append((path, nofail))
-        print("VIOLATION property=%s replay=%s%s" % (self.prop, path, " no-failing-input-found" if nofail else ""))
-        sys.stdout.flush()
 
     def known_finding(self, text):
         self.known.append(text)
         print("KNOWN-FINDING: property=%s %s" % (self.prop, text))
 
     def finish(self):
+        # VIOLATION lines are printed here: broken proofs / correspondences are reported with
+        # no-failing-input-found only when no oracle produced a concrete failing input in this run
+        have_input = any(not nf for _, nf in self.violations)
+        for path, nf in self.violations:
+            if nf and have_input:
+                print("NOTE property=%s also-broken=%s (proof obligation or correspondence; a failing input was found, see the "
+                      "VIOLATION line)" % (self.prop, path))
+            else:
+                print("VIOLATION property=%s replay=%s%s" % (self.prop, path, " no-failing-input-found" if nf else ""))
+        sys.stdout.flush()
         self.cov["distinct_nontrivial"] = len(self._distinct)
         self.cov["known_findings_reported"] = self.known
         ev = {"property_id": self.prop, "tier": self.tier, "seed": self.seed, "level": self.level,
